@@ -125,6 +125,12 @@ def r1_roundtrip(repo: Repo, rep, rule_id="R-C17-1"):
                             made = subst(q.ret, {dn.params[0]: r.left, dn.params[1]: r.right})
                 if made is not None:
                     r = made
+            if isinstance(r, ast.Call) and attr_chain(r.func) in ("copy.copy", "copy.deepcopy", "copy", "deepcopy") and r.args and dump(r.args[0]) == "self":
+                # copy-and-patch instead of re-construction: everything the constructor derives from its arguments (necessary_variables - for a shallow copy even
+                # the very set object of the original - registered shape functions, the boundary) keeps the state of the unevaluated domain
+                rep.violation(R, fi.site(p.ret_node), fi.fq, f"the evaluated domain is built by {ci.name}(...) from the evaluated arguments",
+                              f"a patched {dump(r)[:40]}: constructor-derived state (necessary_variables, ...) is that of the unevaluated domain", "copy of self patched")
+                continue
             if not (isinstance(r, ast.Call) and attr_chain(r.func) in (ci.name, "type(self)", "self.__class__")):
                 rep.undecided(R, fi.site(p.ret_node), fi.fq, f"returns {ci.name}(...)", dump(r)[:80])
                 continue
@@ -157,6 +163,37 @@ def r1_roundtrip(repo: Repo, rep, rule_id="R-C17-1"):
                     ok = t == f"self.{a}"
                     want = f"self.{a}"
                 rep.check(R, ok, fi.site(p.ret_node), fi.fq, f"`{q}` = {want}", f"`{q}` = {t[:90]}", f"{q}={t[:90]}")
+
+
+def r1b_motion_boundaries(repo: Repo, rep, rule_id="R-C17-1b"):
+    R = rep.rule(rule_id, "the boundary of a translated / rotated domain is the same motion of the inner boundary: its constructor call receives EVERY argument of the motion "
+                 "(shape functions and pivot as stored), only the domain is replaced by self.domain.boundary", floor=2,
+                 why="a pivot that is not handed on rotates the boundary about the origin: boundary samples of the rotated domain lie off its boundary")
+    for mod, cname in (("translate", "Translate"), ("rotate", "Rotate")):
+        ci = repo.cls(f"{DOM}.domainoperations.{mod}.{cname}")
+        fi = ci.methods.get("boundary")
+        info = _ctor_info(repo, ci)
+        if fi is None or info is None:
+            rep.undecided(R, ci.module.relpath, ci.fq, "boundary property and constructor", "not found")
+            continue
+        rep.saw(fi)
+        init, params, kinds, attr = info
+        for p in paths(fi.node):
+            if p.ret is RAISE or p.ret is None:
+                continue
+            r = p.ret
+            if not (isinstance(r, ast.Call) and attr_chain(r.func) in (ci.name, "type(self)", "self.__class__")):
+                rep.undecided(R, fi.site(p.ret_node), fi.fq, f"returns {ci.name}(...)", dump(r)[:80])
+                continue
+            given = dict(zip(params, r.args))
+            given.update({k.arg: k.value for k in r.keywords if k.arg})
+            for q in params:
+                a = attr.get(q) or q
+                want = "self.domain.boundary" if kinds.get(q) == "domain" else f"self.{a}"
+                if q not in given:
+                    rep.violation(R, fi.site(p.ret_node), fi.fq, f"`{q}` = {want}", f"`{q}` not passed: the constructor's default is used", f"{cname}.boundary: missing {q}")
+                    continue
+                rep.check(R, dump(given[q]) == want, fi.site(p.ret_node), fi.fq, f"`{q}` = {want}", f"`{q}` = {dump(given[q])[:80]}", f"{cname}.boundary: {q}={dump(given[q])[:60]}")
 
 
 def _product_factor_ok(t: str, a: str) -> bool:
@@ -468,14 +505,47 @@ def r6_derived_functions(repo: Repo, rep):
         rep.undecided(R, duf.module.relpath, duf.fq, "derived shape-function classes with their own __call__", "none found")
 
 
+def r8_unfiltered_data(repo: Repo, rep):
+    R = rep.rule("R-C17-8", "whoever evaluates a domain / shape function with a mapping hands over the whole mapping: it is never pre-filtered by necessary_variables / necessary_args "
+                 "(optional names - those with a default - are bound by a given value too)", floor=1,
+                 why="a radius `def r(t=1.0)` does not list t as necessary: filtering the data to the necessary names evaluates the domain at the default while the points are labelled with the given t")
+    from ..util import deref, single_defs
+    n = 0
+    for mname, m in repo.modules.items():
+        if ".problem." not in mname and ".utils." not in mname:
+            continue
+        funcs = list(m.functions.values()) + [fi for ci in m.classes.values() for fi in ci.methods.values()]
+        for fi in funcs:
+            tmp = None
+            for c in ast.walk(fi.node):
+                if not isinstance(c, ast.Call):
+                    continue
+                stars = [k.value for k in c.keywords if k.arg is None]
+                if not stars:
+                    continue
+                if tmp is None:
+                    tmp = single_defs(fi.node)
+                for sv in stars:
+                    v = deref(sv, tmp)
+                    n += 1
+                    comps = [x for x in ast.walk(v) if isinstance(x, (ast.DictComp, ast.GeneratorExp, ast.ListComp))]
+                    filt = [dump(i)[:60] for x in comps for g in x.generators for i in g.ifs if "necessary_variables" in dump(i) or "necessary_args" in dump(i)]
+                    if filt:
+                        rep.saw(fi)
+                        rep.violation(R, fi.site(c), fi.fq, "the mapping is passed on whole", f"filtered by {filt[0]}", f"{fi.name}: ** mapping filtered by {filt[0]}")
+    rep.check(R, n > 0, "src/torchphysics", "-", "calls with a ** mapping examined", f"{n} calls", "no ** call examined")
+
+
 def run(repo: Repo, rep):
     from .generic import g_arg_constructor_parameters
     g_arg_constructor_parameters(repo, rep, lambda m: ".domains." in m or m.endswith(".user_fun"), floor=25,
                                  why="an evaluated domain rebuilt without one of its constructor arguments denotes another set")
     r7_product_call(repo, rep)
+    r8_unfiltered_data(repo, rep)
     r6_derived_functions(repo, rep)
     r5_point_data(repo, rep)
     r1_roundtrip(repo, rep)
+    r1b_motion_boundaries(repo, rep)
     r2_setters(repo, rep)
     r3_necessary_variables(repo, rep)
     r4_call_pure(repo, rep)
